@@ -196,6 +196,22 @@ def classes(ctx, dev, dev3, other):
     # invalid polygons and device definitions (nothing can be written by these, but nothing may appear either)
     bowtie = np.array([[0, 0], [2, 2], [2, 0], [0, 2]], dtype=float)
     yield "polygon-self-intersecting", "gross", (lambda out: P("bad", points=bowtie)), (ValueError,)
+    # a valid named polygon whose vertex array is edited IN PLACE afterwards (the setter's validation never sees it),
+    # then used as a hole / as the film of a device that is meshed and solved
+    def edited_in_place(which):
+        def b(out):
+            film = P("film", points=box(6, 4, points=41))
+            hole = P("slot", points=box(2.0, 0.6, center=(0.3, 0.2)))
+            target = hole if which == "hole" else film
+            pts = target.points  # the public array itself
+            i, j = (1, 2) if which == "hole" else (0, len(pts) // 2)
+            pts[[i, j]] = pts[[j, i]]  # exchange two vertices: the outline now crosses itself
+            d = tdgl.Device("d", layer=zoo.layer(), film=film, holes=[hole])
+            d.make_mesh(max_edge_length=1.0)
+            return tdgl.solve(d, runs.options(output_file=out, solve_time=0.02), applied_vector_potential=0.2)
+        return b
+    yield "hole-edited-in-place:self-intersecting", "gross", edited_in_place("hole"), (ValueError,)
+    yield "film-edited-in-place:self-intersecting", "gross", edited_in_place("film"), (ValueError,)
     yield "polygon-two-points", "gross", (lambda out: P("bad", points=np.array([[0, 0], [1, 1.0]]))), (ValueError,)
     yield "terminals-duplicate-name", "gross", (lambda out: tdgl.Device("d", layer=zoo.layer(), film=P("film", points=box(5, 3)), terminals=[P("t", points=box(0.1, 2, center=(-2.5, 0))), P("t", points=box(0.1, 2, center=(2.5, 0)))])), (ValueError,)
     yield "terminal-unnamed", "gross", (lambda out: tdgl.Device("d", layer=zoo.layer(), film=P("film", points=box(5, 3)), terminals=[P(points=box(0.1, 2, center=(-2.5, 0)))])), (ValueError,)
